@@ -49,6 +49,7 @@ import (
 	"go/token"
 	"go/types"
 	"log"
+	"math/big"
 	"os"
 	"regexp"
 	"slices"
@@ -106,6 +107,8 @@ type interpreter struct {
 	mutexes            map[*value]*mutexState
 	wgs                map[*value]*wgState
 	raceID             string
+	protoTab           map[string]iface
+	randCtr            int
 	shadow             map[interface{}]*shadowCell
 }
 
@@ -393,6 +396,24 @@ func visitInstr(fr *frame, instr ssa.Instruction) continuation {
 
 	case *ssa.Index:
 		x := fr.get(instr.X)
+		// constant table (string of bytes) indexed by a symbolic value that is provably in range: an ite-chain term
+		// instead of one path per index (hex/base64 decode tables, ASCII class tables)
+		if tbl, ok := x.(string); ok {
+			if si, ok := fr.get(instr.Index).(symInt); ok && len(tbl) <= 256 && si.t.Lo != nil && si.t.Hi != nil &&
+				si.t.Lo.Sign() >= 0 && si.t.Hi.Cmp(big.NewInt(int64(len(tbl)))) < 0 {
+				C := fr.i.m.C
+				res := C.ConstI(int64(tbl[len(tbl)-1]))
+				for j := len(tbl) - 2; j >= 0; j-- {
+					// group runs of equal bytes to keep the chain short
+					if tbl[j] == tbl[j+1] && j > 0 && tbl[j-1] == tbl[j] {
+						continue
+					}
+					res = C.Ite(C.Le(si.t, C.ConstI(int64(j))), C.ConstI(int64(tbl[j])), res)
+				}
+				fr.env[instr] = fr.i.wrapK(res, types.Uint8)
+				break
+			}
+		}
 		idx := fr.i.idx(fr.get(instr.Index))
 		var n int
 		switch x := x.(type) {
@@ -745,4 +766,3 @@ func doRecover(caller *frame) value {
 	}
 	return iface{}
 }
-
